@@ -1,6 +1,100 @@
+(* C02 — property theorems (statements in full; proofs in Proofs*.v). *)
 From Coq Require Import List NArith Bool.
-From LTV.C02 Require Import Model Proofs.
+From LTV.C02 Require Import Model ProofsA ProofsB Proofs.
+Import ListNotations.
+Local Open Scope N_scope.
 
-Theorem placeholder_true : True.
-Proof. exact Proofs.placeholder_true. Qed.
-Print Assumptions placeholder_true.
+Theorem params_ok_now : Proofs.params_ok = true.
+Proof. exact Proofs.params_ok_now. Qed.
+Print Assumptions params_ok_now.
+
+(* file i starts at the sum of the sizes before it, in torrent order *)
+Theorem layout_offsets : forall cs lay i f, nth_error (c_files (mk_cfg cs lay)) i = Some f ->
+  exists sz pad, nth_error lay i = Some (sz, pad) /\
+    f_off f = total (firstn i lay) /\ f_size f = sz /\ f_pad f = pad /\
+    (f_r1 f, f_r2 f) = set_range cs (f_off f) sz.
+Proof. exact Proofs.layout_offsets. Qed.
+Print Assumptions layout_offsets.
+
+(* every stream byte belongs to exactly one (file, offset); empty files and padding entries
+   do not shift it *)
+Theorem locate_unique : forall cs lay g, g < total lay ->
+  exists i o, located (c_files (mk_cfg cs lay)) g i o /\
+    forall i' o', located (c_files (mk_cfg cs lay)) g i' o' -> i' = i /\ o' = o.
+Proof. exact Proofs.locate_unique. Qed.
+Print Assumptions locate_unique.
+
+(* create_chunk: byte k of the chunk is byte locate(off+k); parts tile the chunk; no empty part,
+   no empty file; padding parts are flagged *)
+Theorem parts_cover : forall cs lay store off len w st ps,
+  let c := mk_cfg cs lay in
+  length store = length (c_files c) ->
+  create_chunk c store off len w = COk st ps ->
+  off + len <= total lay /\ chunk_size ps = len /\
+  (forall p, In p ps -> 0 < p_size p /\
+     exists f, nth_error (c_files c) (p_file p) = Some f /\ 0 < f_size f /\ p_pad p = f_pad f) /\
+  forall k, k < len ->
+    exists p, In p ps /\ p_pos p <= k < p_pos p + p_size p /\
+              located (c_files c) (off + k) (p_file p) (p_foff p + (k - p_pos p)) /\
+              (forall q, In q ps -> p_pos q <= k < p_pos q + p_size q -> q = p).
+Proof. exact Proofs.parts_cover. Qed.
+Print Assumptions parts_cover.
+
+Theorem create_chunk_total : forall cs lay store off len w,
+  let c := mk_cfg cs lay in
+  length store = length (c_files c) ->
+  (create_chunk c store off len w = CErr <-> total lay < off + len) /\
+  (w = true -> 0 < len -> off + len <= total lay ->
+   exists st ps, create_chunk c store off len w = COk st ps).
+Proof. exact Proofs.create_chunk_total. Qed.
+Print Assumptions create_chunk_total.
+
+(* piece count = ceil(total/cs); the piece sizes sum to the total; each is min(cs, rest) > 0 *)
+Theorem piece_sizes_sum : forall cs lay, cfg_ok cs lay ->
+  let c := mk_cfg cs lay in
+  size_chunks c = ceil_div (total lay) cs /\
+  sumN (map (chunk_index_size c) (nseq 0 (N.to_nat (size_chunks c)))) = total lay /\
+  forall i, i < size_chunks c ->
+    chunk_index_size c i = N.min cs (total lay - i * cs) /\ 0 < chunk_index_size c i.
+Proof. exact Proofs.piece_count_and_sizes. Qed.
+Print Assumptions piece_sizes_sum.
+
+(* File::range() of a non-empty file is exactly the set of pieces whose byte interval meets the
+   file's; an empty file has an empty range *)
+Theorem range_exact : forall cs lay, cfg_ok cs lay ->
+  forall i f, nth_error (c_files (mk_cfg cs lay)) i = Some f -> 0 < f_size f ->
+  forall p, (f_r1 f <= p < f_r2 f) <-> touches (mk_cfg cs lay) f p.
+Proof. exact Proofs.range_exact. Qed.
+Print Assumptions range_exact.
+
+Theorem empty_file_range : forall cs lay i f, nth_error (c_files (mk_cfg cs lay)) i = Some f ->
+  f_size f = 0 -> f_r1 f = f_r2 f.
+Proof. exact Proofs.empty_file_range. Qed.
+Print Assumptions empty_file_range.
+
+(* is_valid_piece, with its uint32 wrap-around guard, accepts exactly the in-range blocks *)
+Theorem valid_piece_sound : forall cs lay, cfg_ok cs lay ->
+  forall idx off len, idx < two32 -> off < two32 -> len < two32 ->
+  (is_valid_piece (mk_cfg cs lay) idx off len = true <->
+   idx < size_chunks (mk_cfg cs lay) /\ len <> 0 /\
+   off + len <= chunk_index_size (mk_cfg cs lay) idx).
+Proof. exact Proofs.valid_piece_sound. Qed.
+Print Assumptions valid_piece_sound.
+
+(* after any operation list: completed_bytes = sum of the sizes of the set pieces,
+   left_bytes = total - completed, no internal_error *)
+Theorem completed_bytes_exact : forall cs lay ops, cfg_ok cs lay ->
+  let c := mk_cfg cs lay in
+  let s := fst (run c (init_state c) ops) in
+  completed_bytes c (s_done s) = Some (done_sum c 0 (s_done s)) /\
+  left_bytes c (s_done s) = Some (total lay - done_sum c 0 (s_done s)) /\
+  done_sum c 0 (s_done s) <= total lay.
+Proof. exact Proofs.completed_bytes_exact. Qed.
+Print Assumptions completed_bytes_exact.
+
+Theorem mark_completed_exact : forall c s idx s',
+  step c s (OpMark idx) = (s', OutMark true) ->
+  idx < size_chunks c /\ nth (N.to_nat idx) (s_done s) false = false /\
+  s_done s' = set_nth (s_done s) (N.to_nat idx) /\ s_store s' = s_store s.
+Proof. exact Proofs.mark_completed_exact. Qed.
+Print Assumptions mark_completed_exact.
